@@ -877,6 +877,10 @@ package gldap
 
 //@ pure connIO(c *conn) bool = !isNilIface(c.netConn) && c.reader != nil && c.writer != nil && G_guard[c.writer] == &c.writerMu && G_rsrc[c.reader] == c.netConn && G_wdst[c.writer] == c.netConn
 //@ pure connOK(c *conn) bool = c != nil && connIO(c) && !isNilIface(c.logger) && c.router != nil && muxOK(c.router) && !isNilIface(c.shutdownCtx) && c.connID != 0
+// C08: a client connection is closed in one place only, (*conn).close, whose contract orders the close after
+// the wait for the connection's handlers (G_twait < G_tclose); no other function of the two packages closes
+// a net.Conn or a tls.Conn (package-wide condition over every call site; listeners are a different type).
+//@ callonly[C08] iface:net.Conn.Close, (*crypto/tls.Conn).Close, (*net.TCPConn).Close, iface:io.Closer.Close, iface:io.ReadWriteCloser.Close by (*gldap.conn).close
 //@ func (*gldap.conn).close
 //@   requires c != nil && !isNilIface(c.netConn)
 //@   ensures  G_waited[&c.requestsWg] && G_cclosed[iref(c.netConn)] == old(G_cclosed[iref(c.netConn)]) + 1
